@@ -293,8 +293,10 @@ int sqfs_data_reader_get_fragment(sqfs_data_reader_t *data,
 	if (err)
 		return err;
 
-	if (frag_off + frag_sz > data->block_size)
+	if (frag_off > data->block_size ||
+	    frag_sz > (data->block_size - frag_off)) {
 		return SQFS_ERROR_OUT_OF_BOUNDS;
+	}
 
 	*out = alloc_array(1, frag_sz);
 	if (*out == NULL)
